@@ -7,6 +7,7 @@ and nothing else; for unregistered near-miss names nothing at all + a not-found
 client fault; duplicates are rejected at construction.
 """
 import itertools
+import json
 
 from vflib import core, drive, miniapp as M
 
@@ -153,6 +154,75 @@ def request(channel, name, ns=M.TNS):
     return M.encode_request(kind if kind != 'msgpack' else 'msgpack', name, [])
 
 
+def decoy_requests(channel, name, other):
+    """requests that name `name` where the channel says the name goes, and mention `other` (a registered name) where a careless
+    reader could pick it up instead: [(label, request)]"""
+    kind = channel.replace('-bkeys', '')
+    out = []
+    if kind in ('soap11', 'soap12'):
+        ens = (M.S11 if kind == 'soap11' else M.S12)
+        ct = 'text/xml; charset=utf-8' if kind == 'soap11' else 'application/soap+xml; charset=utf-8'
+        env = '<e:Envelope xmlns:e="%s" xmlns:tns="%s">%%s<e:Body>%%s</e:Body></e:Envelope>' % (ens, M.TNS)
+        n, o = '<tns:%s/>' % name, '<tns:%s/>' % other
+        shapes = [('header_relays_body', '<e:Header><r:relay xmlns:r="urn:relay"><e:Body>%s</e:Body></r:relay></e:Header>' % o, n),
+                  ('header_relays_envelope', '<e:Header><r:relay xmlns:r="urn:relay">%s</r:relay></e:Header>' % (env % ('', o)), n),
+                  ('header_entry', '<e:Header>%s</e:Header>' % o, n),
+                  ('nested_in_call', '', '<tns:%s>%s</tns:%s>' % (name, o, name)),
+                  ('comment_before', '<!-- <e:Body>%s</e:Body> -->' % o, n),
+                  ('body_nested_in_call', '', '<tns:%s><e:Body>%s</e:Body></tns:%s>' % (name, o, name))]
+        for label, head, body in shapes:
+            out.append((label, dict(method='POST', path='/', qs='', body=(env % (head, body)).encode('utf8'), content_type=ct)))
+    elif kind == 'xml':
+        for label, body in [('nested_in_call', '<tns:%s xmlns:tns="%s"><tns:%s/></tns:%s>' % (name, M.TNS, other, name)),
+                            ('comment_before', '<!-- <tns:%s/> --><tns:%s xmlns:tns="%s"/>' % (other, name, M.TNS)),
+                            ('pi_before', '<?%s x?><tns:%s xmlns:tns="%s"/>' % (other, name, M.TNS)),
+                            ('attribute', '<tns:%s xmlns:tns="%s" %s="1" method="%s"/>' % (name, M.TNS, other, other))]:
+            out.append((label, dict(method='POST', path='/', qs='', body=body.encode('utf8'), content_type='text/xml; charset=utf-8')))
+    elif kind in ('json', 'yaml', 'msgpack'):
+        import msgpack, yaml as _yaml
+        dump = {'json': lambda d: json.dumps(d).encode(), 'yaml': lambda d: _yaml.safe_dump(d).encode(),
+                'msgpack': lambda d: msgpack.packb(d, use_bin_type=True)}[kind]
+        ct = {'json': 'application/json', 'yaml': 'text/yaml', 'msgpack': 'application/x-msgpack'}[kind]
+        for label, d in [('nested_in_call', {name: {other: {}}}), ('nested_list', {name: [{other: {}}]}), ('value_is_name', {name: other})]:
+            out.append((label, dict(method='POST', path='/', qs='', body=dump(d), content_type=ct)))
+    elif kind == 'msgpackrpc':
+        import msgpack
+        for label, d in [('name_in_params', [0, 1, name, [other]]), ('name_as_id', [0, other, name, []]), ('fifth_field', [0, 1, name, [], other])]:
+            out.append((label, dict(method='POST', path='/', qs='', body=msgpack.packb(d, use_bin_type=True), content_type='application/x-msgpack')))
+    elif kind == 'httprpc-json':
+        for label, path, qs in [('name_in_query', '/' + name, '%s=1' % other), ('leading_segment', '/%s/%s' % (other, name), ''),
+                                ('method_parameter', '/' + name, 'method=%s' % other), ('fragment', '/' + name, '#%s' % other)]:
+            out.append((label, dict(method='GET', path=path, qs=qs, body=b'', content_type=None)))
+    return out
+
+
+def one_decoy(R, wsgi, calls, channel, label, req, name, owner, other, other_owner, repro):
+    env, inp = drive.make_environ(req['method'], req['path'], req['qs'], req['body'], req['content_type'])
+    del calls[:]
+    R.evaluations += 1
+    w = drive.call_wsgi(wsgi, env, inp)
+    case = dict(repro, name=name, decoy=other, shape=label)
+    R.count('decoy_requests')
+    if w.exc is not None:
+        R.skip('an exception escaped on a decoy request (C10 matter)')
+        return
+    entered = [c for c in calls if not (isinstance(c, tuple) and c and c[0] == 'aux')]
+    if other_owner in entered:
+        R.violation('request naming %r and merely mentioning %r (%s) ran %r' % (name, other, label, entered), case,
+                    mech='decoy_dispatched:%s:%s' % (channel.replace('-bkeys', ''), label))
+        return
+    if owner is None and entered:
+        R.violation('request naming the unregistered %r (%s) ran %r' % (name, label, entered), case, mech='decoy_near_miss_dispatched:%s' % label)
+        return
+    if owner is not None and entered not in ([], [owner]):
+        R.violation('request naming %r (%s) ran %r' % (name, label, entered), case, mech='decoy_wrong_dispatch:%s' % label)
+        return
+    if owner is None and (w.code or 0) < 400 and channel not in ('soap11', 'soap12'):
+        R.violation('request naming the unregistered %r (%s) answered %s' % (name, label, w.status), case, mech='decoy_near_miss_answered:%s' % label)
+        return
+    R.nontrivial(channel, 'decoy', label, owner is not None, bool(entered))
+
+
 def near_misses(name, registered):
     cands = {name.swapcase(), name.upper(), name.lower(), name.capitalize(), 'x' + name, '_' + name, name + 'x', name + '_', name + '1',
              name[1:], name[:-1], name + ' ', ' ' + name}
@@ -196,6 +266,18 @@ def run_app(R, seed, aid, tier):
             for name, owner in sorted(registered.items()):
                 one(R, wsgi, calls, channel, name, M.TNS, owner, repro, baseline, pi,
                     aux=(aux_of is not None and owner == (aux_of[0], aux_of[1])))
+            if (pi == 0 or tier == 'thorough') and len(registered) > 1 and channel != 'msgpack-bkeys':
+                names = sorted(registered)
+                for i, name in enumerate(names):
+                    other = names[(i + 1) % len(names)]
+                    if aux_of is not None and registered[other] == (aux_of[0], aux_of[1]):
+                        continue
+                    for label, req in decoy_requests(channel, name, other):
+                        one_decoy(R, wsgi, calls, channel, label, req, name, registered[name], other, registered[other], repro)
+                    miss = [x for x in near_misses(name, registered) if x.isidentifier()][:1]
+                    for nm in miss:
+                        for label, req in decoy_requests(channel, nm, other):
+                            one_decoy(R, wsgi, calls, channel, label, req, nm, None, other, registered[other], repro)
             if pi == 0 or tier == 'thorough':
                 for name in sorted(registered):
                     for nm in [x for x in near_misses(name, registered) if not (kind in ('xml', 'soap11', 'soap12') and not x.isidentifier())][: 4 if tier == 'quick' else 20]:
